@@ -63,7 +63,12 @@ impl RefChunker {
     }
     /// `None` = out of compressed data
     pub fn next(&mut self) -> Option<Chunk> {
-        let (w, p) = (self.w, self.p);
+        self.next_p(self.p)
+    }
+    /// the next chunk of `p` bits (the precision may change from chunk to chunk: a change of precision leaves the
+    /// words and the left-over bits alone)
+    pub fn next_p(&mut self, p: u32) -> Option<Chunk> {
+        let w = self.w;
         if p == w || (self.bits.len() as u32) < p {
             let idx = self.words.len().checked_sub(1)?;
             let x = self.words.pop()?;
@@ -808,6 +813,56 @@ macro_rules! chain_row {
                             }
                         }
                         ctx.label_if(raised, "model_replaced_with_precision_raised_between_symbols");
+                    }
+                }
+                // ---- oracle 5: the chunk model across precision changes in both directions -------------
+                // (a change of precision re-arranges the remainders side only: the i-th symbol is still what its model assigns
+                // to the next P_i bits of the data. A decrease that runs out of remainders ends the schedule.)
+                if src.ratio(1, 2) {
+                    let m = src.below_usize(if ctx.tier == 0 { 24 } else { 120 });
+                    let first_sel = src.below(PRECS.len() as u64) as u8;
+                    let mut cur = first_sel;
+                    let mut steps: Vec<(Option<u8>, Tab)> = Vec::new();
+                    for _ in 0..m {
+                        let ch = if src.ratio(1, 3) {
+                            let to = src.below(PRECS.len() as u64) as u8;
+                            if to != cur { cur = to; Some(to) } else { None }
+                        } else {
+                            None
+                        };
+                        steps.push((ch, gen_tab(src, PRECS[cur as usize], cur, 8)));
+                    }
+                    if let (Ok(mut c), Some(mut rc)) = (C::from_data(data.to_vec(), binary, first_sel), RefChunker::new(&d64, WBITS, SBITS, PRECS[first_sel as usize], binary)) {
+                        let mut psel = first_sel;
+                        let mut changed = false;
+                        for (i, (ch, t)) in steps.iter().enumerate() {
+                            if let Some(to) = ch {
+                                match c.change(*to) {
+                                    Ok(n) => c = n,
+                                    Err(_) => {
+                                        ctx.label("precision_change_refused(out_of_remainders)");
+                                        break;
+                                    }
+                                }
+                                psel = *to;
+                                changed = true;
+                            }
+                            let exp = rc.next_p(PRECS[psel as usize]);
+                            match (c.decode(t), exp) {
+                                (Ok(s), Some(chunk)) => {
+                                    let want = t.lookup(chunk.value);
+                                    vcheck!(s == want, "C14/symbol_is_not_model_of_chunk", "precision changes between symbols (start P={}): symbol {} at P={} is {} but model {} assigns {} to the next {} bits {:#x}", PRECS[first_sel as usize], i, PRECS[psel as usize], s, t.render(), want, PRECS[psel as usize], chunk.value);
+                                }
+                                (Err(DecErr::OutOfData), None) => break,
+                                (Ok(s), None) => vfail!("C14/out_of_data_index", "precision changes between symbols: the coder decoded symbol {} = {} although the data has no further {} bits", i, s, PRECS[psel as usize]),
+                                (Err(DecErr::OutOfData), Some(_)) => vfail!("C14/out_of_data_index", "precision changes between symbols: the coder ran out of data at symbol {} (P={}) although the data holds a further chunk", i, PRECS[psel as usize]),
+                                (Err(DecErr::Other(_)), _) => {
+                                    ctx.discard("foreign:C13/decode_error");
+                                    return Ok(());
+                                }
+                            }
+                        }
+                        ctx.label_if(changed, "chunk_model_across_precision_changes");
                     }
                 }
                 Ok(())
